@@ -1,2 +1,187 @@
-(* C61 placeholder while the tie is being developed *)
-From PLV Require Import Num.OptimizersModel.
+(* C61 Optimizers apply their documented update rules.
+   Statements only; every proof is `exact <lemma>` from Num/OptimizersProofs.v.
+   Vocabulary (Num/OptimizersModel.v): an argument is (requires_grad, flat vector); `run k h nm orc n t0 args st`
+   performs n calls of opt.step with the step-indexed gradient oracle orc, `trace ...` is the list of gradient
+   tuples the optimizer received, `gseq r c tr` coordinate c of the r-th gradient of each tuple, rank i args the
+   position of argument i's gradient in the tuple, acc1/acc2 the accumulator entries of argument i, coord c v the
+   c-th entry of v; nm = (sqrt, rounding of the quotient term) is arbitrary. *)
+From Coq Require Import List QArith Reals.
+From PLV Require Import Num.OptimizersModel Num.OptimizersProofs.
+Import ListNotations.
+Open Scope Q_scope.
+
+(* x_n = x_0 - eta * sum_i g_i  (every trainable argument, every coordinate, any oracle, any start state) *)
+Theorem gd_closed_form : forall h nm orc n t0 args st i c, trainable i args = true ->
+  coord c (argv i (fst (run GD h nm orc n t0 args st))) ==
+  coord c (argv i args) - eta h * qsum (gseq (rank i args) c (trace GD h nm orc n t0 args st)).
+Proof. exact gd_closed. Qed.
+Print Assumptions gd_closed_form.
+
+(* a_n = m^n a_0 + sum_i m^(n-i) * eta * g_i  (Momentum and Nesterov; a_0 = 0 on a fresh/reset optimizer) *)
+Theorem momentum_acc_closed_form : forall k h nm orc n t0 args st i c, k = Momentum \/ k = Nesterov ->
+  trainable i args = true ->
+  coord c (acc1 i (snd (run k h nm orc n t0 args st))) ==
+  qpow (gam h) n * coord c (acc1 i st) +
+  wsum (gam h) (map (fun g => eta h * g) (gseq (rank i args) c (trace k h nm orc n t0 args st))).
+Proof. exact momentum_acc_closed. Qed.
+Print Assumptions momentum_acc_closed_form.
+
+(* x^(t+1) = x^(t) - a^(t+1) *)
+Theorem momentum_param_update : forall k h nm gradf args st i c, k = Momentum \/ k = Nesterov ->
+  trainable i args = true ->
+  coord c (argv i (fst (step k h nm gradf args st))) ==
+  coord c (argv i args) - coord c (acc1 i (snd (step k h nm gradf args st))).
+Proof. exact momentum_step_arg. Qed.
+Print Assumptions momentum_param_update.
+
+(* the j-th gradient of a history is the oracle's answer at the query point of the j-th state, and for Nesterov that
+   point is x - m * a on trainable arguments (a = 0 while the memory is empty), x itself on the others *)
+Theorem nesterov_uses_lookahead_gradient : forall h nm orc n t0 args st j, (j < n)%nat ->
+  let aj := fst (run Nesterov h nm orc j t0 args st) in
+  let sj := snd (run Nesterov h nm orc j t0 args st) in
+  nth j (trace Nesterov h nm orc n t0 args st) [] = orc (t0 + j)%nat (query Nesterov h aj sj) /\
+  forall i c, coord c (argv i (query Nesterov h aj sj)) ==
+              if trainable i aj then coord c (argv i aj) - gam h * coord c (acc1 i sj) else coord c (argv i aj).
+Proof. intros; split; [now apply trace_nth | intros; apply nesterov_query]. Qed.
+Print Assumptions nesterov_uses_lookahead_gradient.
+
+(* all other optimizers ask the oracle at the current arguments *)
+Theorem others_query_current_point : forall k h args st, k <> Nesterov \/ st = None -> query k h args st = args.
+Proof. exact query_id. Qed.
+Print Assumptions others_query_current_point.
+
+Theorem adagrad_acc_is_sum_squares : forall h nm orc n t0 args st i c, trainable i args = true ->
+  coord c (acc1 i (snd (run Adagrad h nm orc n t0 args st))) ==
+  coord c (acc1 i st) + qsum (map (fun g => g * g) (gseq (rank i args) c (trace Adagrad h nm orc n t0 args st))).
+Proof. exact adagrad_acc_closed. Qed.
+Print Assumptions adagrad_acc_is_sum_squares.
+
+Theorem rmsprop_acc_recurrence_closed_form : forall h nm orc n t0 args st i c, trainable i args = true ->
+  coord c (acc1 i (snd (run RMSProp h nm orc n t0 args st))) ==
+  qpow (gam h) n * coord c (acc1 i st) +
+  wsum (gam h) (map (fun g => (1 - gam h) * (g * g)) (gseq (rank i args) c (trace RMSProp h nm orc n t0 args st))).
+Proof. exact rmsprop_acc_closed. Qed.
+Print Assumptions rmsprop_acc_recurrence_closed_form.
+
+Theorem adam_moments_closed_form : forall h nm orc n t0 args st i c, trainable i args = true ->
+  let tr := trace Adam h nm orc n t0 args st in
+  coord c (acc1 i (snd (run Adam h nm orc n t0 args st))) ==
+    qpow (gam h) n * coord c (acc1 i st) + wsum (gam h) (map (fun g => (1 - gam h) * g) (gseq (rank i args) c tr)) /\
+  coord c (acc2 i (snd (run Adam h nm orc n t0 args st))) ==
+    qpow (beta2 h) n * coord c (acc2 i st) + wsum (beta2 h) (map (fun g => (1 - beta2 h) * (g * g)) (gseq (rank i args) c tr)) /\
+  st_t (snd (run Adam h nm orc n t0 args st)) = (n + st_t st)%nat.
+Proof. intros; repeat split; [now apply adam_fm_closed | now apply adam_sm_closed | apply run_t]. Qed.
+Print Assumptions adam_moments_closed_form.
+
+(* bias correction: (a) under a constant gradient the moments are (1 - beta^n) g and (1 - beta2^n) g^2 - the factors
+   the step size divides out; (b) for any multiplicative square root the rescaled step size is the textbook
+   bias-corrected update  eta * mhat / (sqrt vhat + eps / sqrt(1 - beta2^t)) *)
+Theorem adam_bias_correction :
+  (forall alpha g (phi : Q -> Q) l, (forall x, In x l -> phi x == phi g) ->
+     wsum alpha (map (fun x => (1 - alpha) * phi x) l) == (1 - qpow alpha (length l)) * phi g) /\
+  (forall h (sq : Q -> Q) t f v,
+     (forall a b, sq (a * b) == sq a * sq b) -> Proper (Qeq ==> Qeq) sq ->
+     ~ 1 - qpow (gam h) t == 0 -> ~ 1 - qpow (beta2 h) t == 0 -> ~ sq (1 - qpow (beta2 h) t) == 0 -> ~ sq v + eps h == 0 ->
+     adam_stepsize h sq t * f / (sq v + eps h) ==
+     eta h * (f / (1 - qpow (gam h) t)) / (sq (v / (1 - qpow (beta2 h) t)) + eps h / sq (1 - qpow (beta2 h) t))).
+Proof. split; [exact wsum_const | exact adam_bias_algebra]. Qed.
+Print Assumptions adam_bias_correction.
+
+(* parameter updates of the square-root optimizers (rnd = identity is the documented formula) *)
+Theorem adagrad_rmsprop_update_formula : forall k h nm gradf args st i c, k = Adagrad \/ k = RMSProp -> good_rnd nm ->
+  trainable i args = true ->
+  coord c (argv i (fst (step k h nm gradf args st))) ==
+  coord c (argv i args) -
+  rnd nm (eta h / sq nm (coord c (acc1 i (snd (step k h nm gradf args st))) + eps h)
+          * coord c (nth (rank i args) (gradf (query k h args st)) [])).
+Proof. exact adagrad_like_update. Qed.
+Print Assumptions adagrad_rmsprop_update_formula.
+
+Theorem adam_update_formula : forall h nm gradf args st i c, good_rnd nm -> trainable i args = true ->
+  coord c (argv i (fst (step Adam h nm gradf args st))) ==
+  coord c (argv i args) -
+  rnd nm (adam_stepsize h (sq nm) (S (st_t st)) * coord c (acc1 i (snd (step Adam h nm gradf args st)))
+          / (sq nm (coord c (acc2 i (snd (step Adam h nm gradf args st)))) + eps h)).
+Proof. exact adam_update. Qed.
+Print Assumptions adam_update_formula.
+
+(* step_and_cost performs exactly the update of step ... *)
+Theorem step_and_cost_same_update : forall k h nm ag gradf costf args st,
+  fst (step_and_cost k h nm ag gradf costf args st) = step k h nm gradf args st.
+Proof. exact sc_same_update. Qed.
+Print Assumptions step_and_cost_same_update.
+
+(* ... and returns the cost at the pre-step arguments, for every optimizer except Nesterov with grad_fn=None on a
+   non-empty memory *)
+Theorem step_and_cost_returns_prestep_cost_partial : forall k h nm ag gradf costf args st,
+  k <> Nesterov \/ ag = false \/ st = None ->
+  snd (step_and_cost k h nm ag gradf costf args st) = costf args.
+Proof. exact sc_prestep. Qed.
+Print Assumptions step_and_cost_returns_prestep_cost_partial.
+
+(* the faithful model REFUTES the clause for NesterovMomentumOptimizer with grad_fn=None: the value returned is the
+   objective at the look-ahead point *)
+Theorem nesterov_step_and_cost_prestep_refuted :
+  exists h gradf costf args st, ~ snd (step_and_cost Nesterov h nm_id true gradf costf args st) == costf args.
+Proof. exact nesterov_sc_refuted. Qed.
+Print Assumptions nesterov_step_and_cost_prestep_refuted.
+
+Theorem nontrainable_untouched : forall k h nm orc n t0 args st i,
+  trainable i args = false -> nth i (fst (run k h nm orc n t0 args st)) dflt_arg = nth i args dflt_arg.
+Proof. exact run_untouched. Qed.
+Print Assumptions nontrainable_untouched.
+
+(* argument i is updated from ITS gradient (the rank(i)-th of the tuple) and ITS accumulator entry only, by the
+   optimizer's per-argument rule; flags and the number of arguments are preserved *)
+Theorem multi_arg_independent : forall k h nm gradf args st i,
+  let g := nth (rank i args) (gradf (query k h args st)) [] in
+  let u := upd k h nm (S (st_t st)) (argv i args) g (acc1 i st, acc2 i st) in
+  nth i (fst (step k h nm gradf args st)) dflt_arg = (if trainable i args then (true, fst u) else nth i args dflt_arg) /\
+  (acc1 i (snd (step k h nm gradf args st)), acc2 i (snd (step k h nm gradf args st))) =
+    (if trainable i args then snd u else (acc1 i st, acc2 i st)) /\
+  map fst (fst (step k h nm gradf args st)) = map fst args.
+Proof. intros; repeat split; [apply step_arg | apply step_acc | apply step_flags]. Qed.
+Print Assumptions multi_arg_independent.
+
+(* reset() erases the memory: every accumulator coordinate restarts from 0 and Adam's t from 0 *)
+Theorem reset_forgets : forall st i c,
+  reset st = None /\ coord c (acc1 i (reset st)) = 0 /\ coord c (acc2 i (reset st)) = 0 /\ st_t (reset st) = 0%nat.
+Proof. intros; repeat split; apply acc_fresh. Qed.
+Print Assumptions reset_forgets.
+
+(* the rational square root used by the correspondence run encloses the real one *)
+Theorem qsqrt_encloses : forall p x, 0 < x ->
+  let lo := qsqrt p x in let hi := lo + (1 # (Qden x * 2 ^ p)) in
+  0 <= lo /\ lo * lo <= x /\ x < hi * hi.
+Proof. exact qsqrt_enclosure. Qed.
+Print Assumptions qsqrt_encloses.
+
+(* Rotoselect keeps a candidate whose optimum is <= the initial cost and <= every other candidate's optimum *)
+Theorem rotoselect_picks_minimum : forall cands bi bt bc i,
+  let r := roto_select bi bt bc i cands in
+  snd r <= bc /\ (forall th c, In (th, c) cands -> snd r <= c).
+Proof. exact roto_select_min. Qed.
+Print Assumptions rotoselect_picks_minimum.
+
+(* Rotosolve (min_analytic transcribed as roto_xmin / roto_ymin; Rotoselect._rotosolve is the case freq = 1):
+   for every single-frequency sinusoid the closed-form angle is a global minimiser and y_min is the minimum *)
+Theorem rotosolve_minimises : forall (f : R -> R) (C p q freq : R), (0 < freq)%R ->
+  (forall t, f t = C + p * sin (freq * t) + q * cos (freq * t))%R ->
+  (forall t, f (roto_xmin f freq) <= f t)%R /\ roto_ymin f freq = f (roto_xmin f freq).
+Proof. intros f C p q freq H1 H2; split; [exact (rotosolve_min f C p q freq H1 H2) | exact (rotosolve_ymin f C p q freq H1 H2)]. Qed.
+Print Assumptions rotosolve_minimises.
+
+Theorem rotosolve_minimises_amplitude_phase : forall (f : R -> R) (A phi C freq : R), (0 < freq)%R ->
+  (forall t, f t = A * sin (freq * t + phi) + C)%R -> forall t, (f (roto_xmin f freq) <= f t)%R.
+Proof. exact rotosolve_min_phase. Qed.
+Print Assumptions rotosolve_minimises_amplitude_phase.
+
+(* non-vacuity: a two-argument Momentum history meets the hypotheses and gives the documented numbers *)
+Example hyps_satisfiable :
+  let h := mkH (1 # 2) (1 # 2) 0 0 in
+  let args := [(false, [5]); (true, [1; 2])] in
+  let orc := fun (_ : nat) (a : list arg) => [map (fun x => 2 * x) (argv 1 a)] in
+  trainable 1 args = true /\ rank 1 args = 0%nat /\
+  run Momentum h nm_id orc 2 0 args None = ([(false, [5]); (true, [-1 # 2; -1])], Some (2%nat, [([], []); ([1 # 2; 1], [])])) /\
+  good_rnd nm_id.
+Proof. repeat split; try reflexivity. intros x y E; exact E. Qed.
